@@ -276,7 +276,7 @@ theorem inv3_step {P : Params} {s s' : State} (h2 : Inv2 s) (h : Inv3 P s) (hs :
         simp only [updF_same] at hr; cases hr
         obtain ⟨o, ho⟩ := hok; cases ho
     · other_tx3 h j hj
-  | tailTs i k st hp =>
+  | tailTs i k st hp hk =>
     intro j
     by_cases hj : j = i
     · subst hj
@@ -285,6 +285,14 @@ theorem inv3_step {P : Params} {s s' : State} (h2 : Inv2 s) (h : Inv3 P s) (hs :
       · unfold ConsPhase; simp only [updF_same]
     · other_tx3 h j hj
   | tailLts i k ts st hp =>
+    intro j
+    by_cases hj : j = i
+    · subst hj
+      refine ⟨(h j).res_prov, ?_, ?_, (h j).cons_res⟩
+      · intro x hx; simp [phaseReads] at hx
+      · unfold ConsPhase; simp only [updF_same]
+    · other_tx3 h j hj
+  | tailSkip i k st hp hk =>
     intro j
     by_cases hj : j = i
     · subst hj
